@@ -689,10 +689,55 @@ def routes(ctx):
                 ctx.violated("C12.3", f, "a creator subclass overwrites piece_length", n)
 
 
+def automatic_input(ctx):
+    """C12.2: 'never decreases as the payload grows' is about the payload the metafile describes.  The size handed to the
+    automatic choice must therefore be the total of the very listing the creators hash (utils.filelist_total): a second walk
+    of the tree (os.walk, scandir, glob ...) disagrees with it wherever the two enumerations differ - directories reached
+    through symbolic links, entries that are not regular files - and a larger payload then gets a smaller piece length."""
+    from tfsa.flow import Flow, walk_terms, show
+    gpl = ctx.prog.func("torrentfile.utils:get_piece_length")
+    listing = [f for f in ctx.prog.functions.values() if f.module.name == "torrentfile.utils" and f.name == "filelist_total"]
+    if not listing:
+        ctx.undecided("C12.2", None, "anchor vanished: utils.filelist_total")
+        return
+    fl = Flow(ctx.prog, ctx.res, opaque_funcs=listing)
+    n = 0
+    for caller, call, bound in ctx.res.callsites_of(gpl):
+        if caller is None or not call.args:
+            continue
+        n += 1
+        t = fl.term(call.args[0], caller)
+        walks = sorted({x[1] for x in walk_terms(t) if x[0] == "ext" and x[1] in ("os.walk", "os.scandir", "os.listdir", "glob.glob", "glob.iglob")} |
+                       {"Path.%s" % x[1] for x in walk_terms(t) if x[0] == "meth" and x[1] in ("iterdir", "glob", "rglob")})
+        from_listing = any(x[0] == "pkgcall" and x[1] == listing[0].qual for x in walk_terms(t))
+        if not walks and not from_listing:
+            # the value travels in a way the origin terms do not follow (a field of a result object ...): fall back on
+            # which enumerations of the file system the computation can reach at all
+            inside = set(C.reach(ctx, listing, allow_approx=False)) | set(listing)
+            mine = [f_ for f_ in (set(C.reach(ctx, [caller], allow_approx=False)) | {caller}) if f_ not in inside]
+            for f_ in mine:
+                for c_ in own_nodes(f_.node):
+                    if isinstance(c_, ast.Call):
+                        if C.is_ext_call(ctx, c_, f_, ("os.walk", "os.scandir", "os.listdir", "glob.glob", "glob.iglob")):
+                            walks.append(norm(c_.func) + " in " + f_.name)
+                        elif isinstance(c_.func, ast.Attribute) and c_.func.attr in ("iterdir", "rglob") and any(k == ("path",) for k in ctx.res.kinds(c_.func.value, f_)):
+                            walks.append("Path.%s in %s" % (c_.func.attr, f_.name))
+            from_listing = not walks and any(f_ in inside for f_ in C.reach(ctx, [caller], allow_approx=False))
+        if walks:
+            ctx.violated("C12.2", caller, "the payload size that picks the piece length comes from a walk of its own (%s), not from the listing the creators hash: where the two enumerations differ "
+                         "(a directory reached through a symbolic link) files that are hashed are not counted, and a larger payload gets a smaller piece length" % ", ".join(walks), call)
+        elif from_listing:
+            ctx.holds("C12.2", caller, "the payload size that picks the piece length is the total of utils.filelist_total, the listing that is hashed", call)
+        else:
+            ctx.undecided("C12.2", caller, "where the payload size handed to get_piece_length comes from is not understood (%s)" % show(t, maxdepth=2)[:80], call)
+    ctx.floor("call sites of the automatic piece-length choice", 1, n)
+
+
 def run(ctx):
     ctx.trust("CPython integer / string semantics of the predicates used (isdecimal, comparisons, bit operations)")
     normaliser(ctx)
     automatic(ctx)
+    automatic_input(ctx)
     routes(ctx)
 
 
